@@ -219,6 +219,15 @@ pub fn gen_doc_with(r: &mut Rng, with_crypt_override: bool, stale_objstm: bool) 
         };
         d.objects.insert(id, o);
     }
+    // now and then an object number that does not fit into three bytes: Algorithm 1 takes the low-order three bytes
+    // of the number and the low-order two of the generation, nothing else
+    if r.chance(1, 24) {
+        let num = *r.pick(&[0x00FF_FFFFu32, 0x0100_0000, 0x0100_0010, 0x0134_5678, 0x0100_0001]);
+        let gen = if r.chance(1, 3) { 2 } else { 0 };
+        let body = r.bytes(40);
+        d.objects.insert((num, gen), if r.bool() { strv(r) } else { RObj::Stream(vec![(k("Title"), strv(r))], body) });
+        d.objects.insert((num + 1, 0), RObj::Array(vec![strv(r), strv(r)]));
+    }
     let mid = (20, 0);
     d.objects.insert(mid, RObj::Stream(vec![(k("Type"), name("Metadata")), (k("Subtype"), name("XML")), (k("Note"), strv(r))], b"<x:xmpmeta>metadata that is at least sixteen bytes</x:xmpmeta>".to_vec()));
     if let Some(RObj::Dict(c)) = d.objects.get_mut(&(1, 0)) {
@@ -627,7 +636,7 @@ pub fn run_c05(cfg: &RunCfg) -> (PropMeta, ShardOut, Map<String, Value>) {
     let out = run_generic(cfg, "C05", 1600, 60_000, &|conf, model, r, _| c05_case(conf, model, r).into_iter().collect());
     let meta = PropMeta {
         level: "exploration",
-        rule: "security-handler configurations enumerated round-robin ({V1; V2 with 40..128-bit keys; V4 with RC4/AESV2/Identity chosen independently for streams and strings; R5; V5} x EncryptMetadata x 8 permission sets) with sampled password pairs (empty, ASCII, Latin-1, > 32 bytes, SASLprep-sensitive Unicode and > 127 bytes for R5/R6, owner == user, empty owner) and documents with strings nested in arrays/dictionaries/stream dictionaries, binary and empty strings/streams, a Metadata stream, compressed streams and per-stream Crypt overrides (naming Identity, the default filters, an unknown filter, or - in half of the V4+ configurations - a further crypt filter AltCF listed in CF that neither StmF nor StrF refers to). Per case: encrypt; no string/stream >= 16 bytes under a non-identity filter still equals its plaintext; a wrong password is rejected and leaves the document unchanged; decrypt with the user and with the owner password, in memory and after save_to + load_mem, restores every byte and removes the encryption dictionary. distinct = distinct (configuration, passwords, document).".into(),
+        rule: "security-handler configurations enumerated round-robin ({V1; V2 with 40..128-bit keys; V4 with RC4/AESV2/Identity chosen independently for streams and strings; R5; V5} x EncryptMetadata x 8 permission sets) with sampled password pairs (empty, ASCII, Latin-1, > 32 bytes, SASLprep-sensitive Unicode and > 127 bytes for R5/R6, owner == user, empty owner) and documents with strings nested in arrays/dictionaries/stream dictionaries, binary and empty strings/streams, object numbers beyond 2^24 now and then, a Metadata stream, compressed streams and per-stream Crypt overrides (naming Identity, the default filters, an unknown filter, or - in half of the V4+ configurations - a further crypt filter AltCF listed in CF that neither StmF nor StrF refers to). Per case: encrypt; no string/stream >= 16 bytes under a non-identity filter still equals its plaintext; a wrong password is rejected and leaves the document unchanged; decrypt with the user and with the owner password, in memory and after save_to + load_mem, restores every byte and removes the encryption dictionary. distinct = distinct (configuration, passwords, document).".into(),
         assumptions: vec!["R<=4 passwords are drawn from ASCII and Latin-1 letters (identical in PDFDocEncoding); R>=5 passwords come from the Python-generated SASLprep table".into()],
         exhaustive: false,
         min_distinct: 200,
